@@ -238,17 +238,39 @@ class Ctx:
                 raise RuntimeError("coq_makefile failed:\n" + out)
         return files
 
-    def static_scan(self, files=None):
-        """forbidden-construct scan over the hand-written and generated sources"""
+    @staticmethod
+    def coq_closure(files):
+        """transitive closure of `Require ... V.Dir.File` dependencies (paths relative to coq/)"""
+        seen, todo = [], list(files)
+        while todo:
+            f = todo.pop()
+            if f in seen:
+                continue
+            seen.append(f)
+            p = os.path.join(COQ, f)
+            if not os.path.exists(p):
+                continue
+            txt = strip_coq_comments(open(p).read())
+            for m in re.finditer(r"\bV\.((?:\w+\.)*\w+)", txt):
+                parts = m.group(1).split(".")
+                for k in range(len(parts), 0, -1):
+                    cand = "/".join(parts[:k]) + ".v"
+                    if os.path.exists(os.path.join(COQ, cand)):
+                        todo.append(cand)
+                        break
+        return sorted(seen)
+
+    def static_scan(self, files):
+        """forbidden-construct scan over the dependency closure of the given files"""
         bad = []
-        for root, _, names in os.walk(COQ):
-            for nm in names:
-                if nm.endswith(".v"):
-                    p = os.path.join(root, nm)
-                    txt = strip_coq_comments(open(p).read())
-                    m = FORBIDDEN.search(txt)
-                    if m:
-                        bad.append("%s: %s" % (os.path.relpath(p, COQ), m.group(0)))
+        for f in self.coq_closure(files):
+            p = os.path.join(COQ, f)
+            if not os.path.exists(p):
+                continue
+            txt = strip_coq_comments(open(p).read())
+            m = FORBIDDEN.search(txt)
+            if m:
+                bad.append("%s: %s" % (f, m.group(0)))
         return bad
 
     def coq_build(self, props_files, timeout=900):
@@ -259,7 +281,7 @@ class Ctx:
         Counts obligations: every Theorem in the listed files."""
         if isinstance(props_files, str):
             props_files = [props_files]
-        bad = self.static_scan()
+        bad = self.static_scan(props_files)
         if bad:
             self.obligations += 1
             self.tie_broken("static", "forbidden construct", "; ".join(bad))
